@@ -14,8 +14,9 @@
 (*   server.go handleConnectionLoop : ConnOpen (limiter captured once),     *)
 (*        Judge (rate-limit decision before HandleCall)                     *)
 (*                                                                         *)
-(* A policy is a record [v, secure, en]: v = number of swaps so far,        *)
-(* secure = requests from unprivileged ports are denied, en = rate limiting *)
+(* A policy is a record [v, secure, en, deny]: v = number of swaps so far,  *)
+(* secure = requests from unprivileged ports are denied, deny = the classes *)
+(* of client addresses its AllowedIPs list refuses, en = rate limiting      *)
 (* enabled.  A limiter is identified by the version that created it and is  *)
 (* a bucket of `budget` tokens that never refills (rate 0), so that the     *)
 (* decision is independent of time.                                         *)
@@ -30,13 +31,19 @@ CONSTANTS Reqs,            \* request ids (positive integers)
           SecureSets,      \* set of subsets of Upds: which updates install a policy with Secure = TRUE
           LimOnSets,       \* set of subsets of Upds: which updates enable rate limiting (the others disable it)
           BadSquashSets,   \* set of subsets of Upds: which updates are rejected (Squash differs)
+          Classes,         \* classes of client addresses (what an AllowedIPs list tells apart)
+          ClassChoice,     \* [Reqs -> SUBSET Classes] where a request may come from
+          AclChoices,      \* set of functions [Upds -> SUBSET Classes]: the classes the policy of an update refuses
+          Acl0Choices,     \* set of subsets of Classes: the classes the policy given to New() refuses
           Budgets,         \* set of token budgets of a new limiter
           MaxOps,          \* backend operations per request (bound)
           MinOps,          \* backend operations a request performs at least (0: NULL-like requests exist)
           CaptureLimiter,  \* TRUE: the connection loop captures the limiter once (pinned code, finding F10)
-          Mutant           \* "none" | "UnlockOnTimeout" | "SwapBeforeDrain" | "ReleaseBeforeLimiter"
+          Mutant           \* "none" | "UnlockOnTimeout" | "SwapBeforeDrain" | "ReleaseBeforeLimiter" | "AliasedPolicy"
 
-NoSnap == [v |-> -1, secure |-> FALSE, en |-> FALSE]
+NoSnap == [v |-> -1, secure |-> FALSE, en |-> FALSE, deny |-> {}]
+\* the policy refuses a request of class k (ValidateAuthentication: Secure port rule, AllowedIPs)
+Refuses(p, k) == p.secure \/ k \in p.deny
 
 VARIABLES cur,       \* live policy [v, secure, en]              (AbsfsNFS.policy)
           lim,       \* live limiter: 0 = nil, else version that created it (AbsfsNFS.rateLimiter)
@@ -50,17 +57,20 @@ VARIABLES cur,       \* live policy [v, secure, en]              (AbsfsNFS.polic
           conn,      \* conn[c] = [ph, cap]   cap = limiter captured when the loop started
           seen,      \* ghost: seen[r] = versions of the live policy observed by r's backend operations
           limOK,     \* ghost: every rate-limit decision taken outside a swap used the limiter of the live policy
-          short, usecure, ulimon, ubadsq, budget   \* configuration of this behaviour (chosen in Init, never changes)
+          short, usecure, ulimon, ubadsq, budget, uacl, acl0   \* configuration of this behaviour (chosen in Init, never changes)
 
-cfgvars == <<short, usecure, ulimon, ubadsq, budget>>
+cfgvars == <<short, usecure, ulimon, ubadsq, budget, uacl, acl0>>
 vars == <<cur, lim, tokens, readers, wWait, wHeld, muHolder, req, upd, conn, seen, limOK, cfgvars>>
 
 MaxVer == Cardinality(Upds)
 
 ReqInit == [ph |-> "idle", c |-> 0, snap |-> NoSnap, timedOut |-> FALSE, ops |-> 0, sent |-> FALSE,
-            denied |-> FALSE, reply |-> "none", floor |-> 0]
+            denied |-> FALSE, reply |-> "none", floor |-> 0, cls |-> 0]
 
-Init == /\ cur = [v |-> 0, secure |-> FALSE, en |-> FALSE]
+Init == /\ short \in ShortSets /\ usecure \in SecureSets /\ ulimon \in LimOnSets
+        /\ ubadsq \in BadSquashSets /\ budget \in Budgets
+        /\ uacl \in AclChoices /\ acl0 \in Acl0Choices
+        /\ cur = [v |-> 0, secure |-> FALSE, en |-> FALSE, deny |-> acl0]
         /\ lim = 0
         /\ tokens = [i \in 1..MaxVer |-> 0]
         /\ readers = {} /\ wWait = FALSE /\ wHeld = FALSE /\ muHolder = 0
@@ -69,8 +79,6 @@ Init == /\ cur = [v |-> 0, secure |-> FALSE, en |-> FALSE]
         /\ conn = [c \in Conns |-> [ph |-> "closed", cap |-> 0]]
         /\ seen = [r \in Reqs |-> {}]
         /\ limOK = TRUE
-        /\ short \in ShortSets /\ usecure \in SecureSets /\ ulimon \in LimOnSets
-        /\ ubadsq \in BadSquashSets /\ budget \in Budgets
 
 \* highest version installed by an update that has returned
 RetFloor == LET S == {upd[u].ver : u \in {x \in Upds : upd[x].ph = "returned"}} IN
@@ -86,13 +94,13 @@ ConnOpen(c) ==
   /\ UNCHANGED <<cur, lim, tokens, readers, wWait, wHeld, muHolder, req, upd, seen, limOK, cfgvars>>
 
 \* environment: request r is handed to the server (on connection c, or directly to HandleCall)
-Call(r, c) ==
+Call(r, c, k) ==
   /\ req[r].ph = "idle"
-  /\ c \in ConnChoice[r]
+  /\ c \in ConnChoice[r] /\ k \in ClassChoice[r]
   /\ c # 0 => /\ conn[c].ph = "open"
               \* the connection loop reads the next call only after it has answered the previous one
               /\ \A q \in Reqs \ {r} : (req[q].ph # "idle" /\ req[q].c = c) => req[q].reply # "none"
-  /\ req' = [req EXCEPT ![r].ph = IF c = 0 THEN "judged" ELSE "arrived", ![r].c = c]
+  /\ req' = [req EXCEPT ![r].ph = IF c = 0 THEN "judged" ELSE "arrived", ![r].c = c, ![r].cls = k]
   /\ UNCHANGED <<cur, lim, tokens, readers, wWait, wHeld, muHolder, upd, conn, seen, limOK, cfgvars>>
 
 \* rate-limit decision of the connection loop, outside the read lock:
@@ -133,13 +141,13 @@ Snapshot(r) ==
 
 \* ValidateAuthentication(authCtx, opts.Policy) refuses: the caller releases the read lock itself
 Deny(r) ==
-  /\ req[r].ph = "admitted" /\ req[r].snap.secure
+  /\ req[r].ph = "admitted" /\ Refuses(req[r].snap, req[r].cls)
   /\ req' = [req EXCEPT ![r].ph = "releasing", ![r].denied = TRUE]
   /\ UNCHANGED <<cur, lim, tokens, readers, wWait, wHeld, muHolder, upd, conn, seen, limOK, cfgvars>>
 
 \* the goroutine that owns the read lock starts: first `select { case <-ctx.Done(): return; default: }`
 GoCheck(r) ==
-  /\ req[r].ph = "admitted" /\ ~req[r].snap.secure
+  /\ req[r].ph = "admitted" /\ ~Refuses(req[r].snap, req[r].cls)
   /\ req' = [req EXCEPT ![r].ph = IF req[r].timedOut THEN "releasing" ELSE "go"]
   /\ UNCHANGED <<cur, lim, tokens, readers, wWait, wHeld, muHolder, upd, conn, seen, limOK, cfgvars>>
 
@@ -225,7 +233,7 @@ UpdReject(u) ==
   /\ upd' = [upd EXCEPT ![u].ph = "released"]
   /\ UNCHANGED <<cur, lim, tokens, readers, wWait, wHeld, muHolder, req, conn, seen, limOK, cfgvars>>
 
-NewPolicy(u) == [v |-> cur.v + 1, secure |-> u \in usecure, en |-> u \in ulimon]
+NewPolicy(u) == [v |-> cur.v + 1, secure |-> u \in usecure, en |-> u \in ulimon, deny |-> uacl[u]]
 
 \* n.policyRWMu.Lock() is called: from now on TryRLock fails.
 \* Mutant SwapBeforeDrain: the new policy is stored before the lock is requested.
@@ -289,10 +297,20 @@ UpdReturn(u) ==
   /\ UNCHANGED <<cur, lim, tokens, readers, wWait, wHeld, req, conn, seen, limOK, cfgvars>>
 
 -----------------------------------------------------------------------------
+\* The caller of New / UpdatePolicyOptions / UpdateExportOptions overwrites option values it still owns (a slice,
+\* a struct behind a pointer).  The installed policy is a deep copy, so nothing happens - unless (mutant
+\* AliasedPolicy) the policy in force shares memory with the caller: then it changes without any update.
+Scribble(K) ==
+  /\ Mutant = "AliasedPolicy"
+  /\ cur.deny # K
+  /\ cur' = [cur EXCEPT !.deny = K]
+  /\ UNCHANGED <<lim, tokens, readers, wWait, wHeld, muHolder, req, upd, conn, seen, limOK, cfgvars>>
+
 \* environment actions (what a client / administrator / the clock decides)
-EnvNext == \/ \E r \in Reqs : (\E c \in Conns \cup {0} : Call(r, c)) \/ TimerFire(r)
+EnvNext == \/ \E r \in Reqs : (\E c \in Conns \cup {0}, k \in Classes : Call(r, c, k)) \/ TimerFire(r)
            \/ \E u \in Upds : UpdCall(u)
            \/ \E c \in Conns : ConnOpen(c)
+           \/ \E K \in SUBSET Classes : Scribble(K)
 \* the backend finishing an operation (gated by the harness)
 BackendNext == \E r \in Reqs : OpEnd(r)
 \* steps the server takes by itself
@@ -341,8 +359,8 @@ LimiterFresh == limOK
 LimiterMatchesPolicy == ~wHeld => lim = PolLim
 
 \* the reply is the one the admitted policy prescribes
-JudgedBySnapshot == \A r \in Reqs : /\ req[r].reply = "denied" => req[r].snap.secure
-                                   /\ req[r].reply = "ok" => (req[r].snap.v >= 0 /\ ~req[r].snap.secure)
+JudgedBySnapshot == \A r \in Reqs : /\ req[r].reply = "denied" => Refuses(req[r].snap, req[r].cls)
+                                   /\ req[r].reply = "ok" => (req[r].snap.v >= 0 /\ ~Refuses(req[r].snap, req[r].cls))
 
 \* the read/write lock discipline itself
 LockDiscipline == /\ wHeld => readers = {}
